@@ -601,11 +601,33 @@ func init() {
 						sends = append(sends, in)
 					}
 				})
+				// select-sends: a log call must block while the queue is full; a non-blocking attempt means the
+				// entry is dropped or handed to something else that enqueues it later, out of order
+				eachInstr(fn, func(in ssa.Instruction) {
+					if sel, ok := in.(*ssa.Select); ok {
+						for _, st := range sel.States {
+							if st.Dir == types.SendOnly && pathOf(st.Chan) == "logQueue" {
+								r.Check(sel.Blocking, fname(fn), "enqueue blocks while the queue is full", in.Pos(), "blocking select", "the entry is offered to the log queue without blocking: when the queue is full it is dropped or enqueued later by someone else — entries of one goroutine overtake each other and a flush can return before the entry is queued")
+								sends = append(sends, in)
+							}
+						}
+					}
+				})
 				if len(sends) == 0 {
 					continue
 				}
 				okk := true
 				why := ""
+				// the enqueue happens on the goroutine of the log call, not on a spawned one
+				if par := fn.Parent(); par != nil {
+					eachInstr(par, func(in ssa.Instruction) {
+						if g, ok := in.(*ssa.Go); ok {
+							if mc, ok := g.Call.Value.(*ssa.MakeClosure); ok && mc.Fn == ssa.Value(fn) {
+								okk, why = false, "the entry is enqueued from a goroutine spawned by the log call: the order of one goroutine's entries is lost and the call returns before the entry is queued"
+							}
+						}
+					})
+				}
 				// no send reaches another send
 				for _, a := range sends {
 					for _, b := range sends {
@@ -736,4 +758,62 @@ func valueUses(v, root ssa.Value) bool {
 		}
 	}
 	return false
+}
+
+func init() {
+	register(&Rule{ID: "C20.R7", Props: []string{"C20"}, Min: 1, Needs: NeedMain,
+		Doc: "a queued entry owns its bytes: where a log entry takes its bytes from a bytes.Buffer (Bytes() aliases the buffer), the buffer is allocated by that very call and is neither handed to a sync.Pool nor reset afterwards — the entry waits in the queue after the log call has returned, and a recycled buffer would be overwritten by the next entry before the writer has seen this one",
+		Run: func(r *R) {
+			sp := r.w.Pkg(roggerPkg)
+			if sp == nil {
+				r.AnchorMissing("package rogger")
+				return
+			}
+			for _, fn := range r.w.Funcs(sp) {
+				eachInstr(fn, func(in ssa.Instruction) {
+					st, ok := in.(*ssa.Store)
+					if !ok {
+						return
+					}
+					fv, base, ok := fieldAddrOf(st.Addr)
+					if !ok || !strings.HasSuffix(typeID(base.Type()), "rogger.logValue") || !isByteSlice(fv.Type()) {
+						return
+					}
+					c, ok := strip(st.Val, false).(*ssa.Call)
+					if !ok || funcID(calleeObj(&c.Call)) != "bytes.(Buffer).Bytes" {
+						r.OK(fname(fn), "entry bytes", in.Pos(), "the entry's bytes are not a view of a bytes.Buffer (%s)", pathOf(st.Val))
+						return
+					}
+					buf := strip(c.Call.Args[0], false)
+					_, fresh := buf.(*ssa.Alloc)
+					if nb, isCall := buf.(*ssa.Call); isCall {
+						if id := funcID(calleeObj(&nb.Call)); id == "bytes.NewBuffer" || id == "bytes.NewBufferString" {
+							fresh = true
+						}
+					}
+					recycled := ""
+					eachInstr(fn, func(j ssa.Instruction) {
+						cc := callCommon(j)
+						if cc == nil {
+							return
+						}
+						id := funcID(calleeObj(cc))
+						for _, a := range cc.Args {
+							if strip(a, false) != buf {
+								if mi, isMI := a.(*ssa.MakeInterface); !isMI || strip(mi.X, false) != buf {
+									continue
+								}
+							}
+							if id == "sync.(Pool).Put" {
+								recycled = "returned to a sync.Pool"
+							}
+							if id == "bytes.(Buffer).Reset" && reaches(in, j) {
+								recycled = "reset after the entry was built"
+							}
+						}
+					})
+					r.Check(fresh && recycled == "", fname(fn), "entry bytes", in.Pos(), "Bytes() of a buffer allocated by this call and never recycled", "the entry's bytes alias a buffer that is %s: the next log call overwrites an entry that is still waiting in the queue (entries lost, duplicated or mixed)", map[bool]string{true: recycled, false: "not allocated by this call (" + pathOf(buf) + ")"}[recycled != ""])
+				})
+			}
+		}})
 }
